@@ -235,6 +235,24 @@ def run_case(case, ctx):
             ctx.reject('scalar_call_differs_from_array_element', observed=float(outs), expected=float(o1), method=method,
                        detail=dict(position=pidx, x_p=xp, tol=tol))
             return
+    # ... and every other element alone (up to 12 of them): a size-dependent code path shows for few elements only
+    if shape and size > 1 and method in ('central', 'forward', 'backward'):
+        others = [q for q in range(size) if q != pidx]
+        if len(others) > 12:
+            others = [int(v) for v in rng.choice(others, size=12, replace=False)]
+        for q in others:
+            xq = float(x.flat[q])
+            try:
+                with np.errstate(all='ignore'):
+                    oq, _iq = d(xq, *args, **kwds)
+            except Exception as exc:
+                ctx.reject('raised_on_scalar', observed=repr(exc)[:200], method=method)
+                return
+            ctx.count('scalar_equivalence_asserted:bitwise')
+            if _bits(np.float64(np.asarray(out).flat[q])) != _bits(np.float64(np.asarray(oq))):
+                ctx.reject('scalar_call_differs_from_array_element', observed=float(np.asarray(oq)), expected=float(np.asarray(out).flat[q]),
+                           method=method, detail=dict(position=q, x_p=xq), row_choice_gave_up_for_all_columns=gave_up_full)
+                return
     if len(ctx.samples) < 3:
         ctx.sample(dict(case=case, x=x.ravel()[:5], out=np.asarray(out).ravel()[:5], position=pidx, scalar_result=float(outs)))
 
